@@ -1123,3 +1123,50 @@ m('C13', 'select: NaN test array bound for every data set', SURV,
 n('C13', 'select: copy bound to a local first', SURV,
   "            survey['data'][key] = self.data[key].sel(**selection).copy()",
   "            selected = self.data[key].sel(**selection).copy()\n            survey['data'][key] = selected")
+
+# ------------------------------------------------ rules added after seeded round 6
+m('C01', 'krylov: breakdown keeps a stale CONVERGED (defect F39)', SOLVER,
+  "        if var.exit_message in ['', 'CONVERGED']:", "        if var.exit_message == '':",
+  'C01.R6.krylov')
+m('C03', 'core.solve: pivot threshold', CORE,
+  "        # Warning: Diagonals of amat cannot be 0!\n        d = 1./amat[6*j]\n",
+  "        if abs(amat[6*j]) < 1e-16:\n            amat[6*j] = 1e-16\n        d = 1./amat[6*j]\n",
+  'C03.S5.solve')
+m('C04', 'restrict_weights: floor on the dual widths', CORE,
+  "    d = np.r_[", "    d = np.maximum(1e-6, np.r_[", None)
+m('C14', 'extract_1d: layers merged with a tolerance', MODELS,
+  "                diff[1:] += abs(np.diff(v))", "                diff[1:] += ~np.isclose(v[1:], v[:-1])",
+  'C14.M5.tolerance')
+m('C14', 'estimate_gridding_opts: mapping defaults to Resistivity', 'emg3d/meshes.py',
+  "gridding_opts.pop('mapping', model.map)", "gridding_opts.pop('mapping', 'Resistivity')",
+  'C14.M4.gridding')
+m('C15', 'TensorMesh.__eq__ compares h[2] with itself', 'emg3d/meshes.py',
+  "np.allclose(self.h[2], mesh.h[2], atol=0)", "np.allclose(self.h[2], self.h[2], atol=0)",
+  'C15.VA1.identity')
+m('C09', '_points_from_grids: C order for point input', 'emg3d/maps.py',
+  "            shape = new_points.shape[:-1]\n            new_points = new_points.reshape(-1, 3, order='F')",
+  "            shape = new_points.shape[:-1]\n            new_points = new_points.reshape(-1, 3)",
+  'C09.RC.order')
+m('C18', "';' as inline comment prefix", 'emg3d/cli/parser.py',
+  "inline_comment_prefixes='#'", "inline_comment_prefixes=('#', ';')", 'C18.Q6.types')
+m('C20', '_check_time updates the ftarg dictionary in place', 'emg3d/time.py',
+  "        self._ftarg = ftarg\n\n        # Print frequency information", "        self._ftarg.update(ftarg)\n\n        # Print frequency information",
+  'C20.F5.coherent')
+m('C10', 'get_source_field: wire for every 2-D coordinate array', 'emg3d/fields.py',
+  "        if source.size > 6:", "        if source.ndim > 1:", 'C10.SF.dispatch')
+# neutral: refactorings the normal form has to absorb
+PEC_BLOCK = ("        efield.fx[:, 0, :] = efield.fx[:, -1, :] = 0.\n"
+             "        efield.fx[:, :, 0] = efield.fx[:, :, -1] = 0.\n"
+             "        efield.fy[0, :, :] = efield.fy[-1, :, :] = 0.\n"
+             "        efield.fy[:, :, 0] = efield.fy[:, :, -1] = 0.\n"
+             "        efield.fz[0, :, :] = efield.fz[-1, :, :] = 0.\n"
+             "        efield.fz[:, 0, :] = efield.fz[:, -1, :] = 0.\n")
+VARIANTS.append(V('C01', 'solve: PEC block extracted into a helper', [
+    (SOLVER, PEC_BLOCK, "        _zero_pec(efield)\n"),
+    (SOLVER, "\n\nclass _ConvergenceError(Exception):",
+     "\n\ndef _zero_pec(efield):\n    \"\"\"PEC.\"\"\"\n" +
+     PEC_BLOCK.replace('        efield', '    efield') +
+     "\n\nclass _ConvergenceError(Exception):")], 'silent'))
+n('C05', 'multigrid: recursion arguments through new temporaries', SOLVER,
+  "            multigrid(cmodel, csfield, cefield, var, level=level+1,\n                      new_cycmax=cycmax-cyc)",
+  "            nxt = level+1\n            rem = cycmax-cyc\n            multigrid(cmodel, csfield, cefield, var, level=nxt,\n                      new_cycmax=rem)")
